@@ -140,11 +140,14 @@ func c20Units(tier string) []Unit {
 		a      alpha
 		faulty []string
 	}
+	// some registrations carry further options next to the callback, before or
+	// after it in the option list (Fill*Info; LocationForPC)
+	info, rev := u.WithInfo, u.OptsReversed
 	fams := []fam{
-		{"chain", alpha{scopes: []int{0, 1}, ctors: []*uFunc{u.D("DAe", cb), u.D("DAe"), u.D("DBe", cb), u.D("DBe"), u.D("DCe", cb), u.D("DAe", cb, u.LocationOf("DB"))}, export: !q,
-			decos: []*uFunc{u.D("DdAe", cb), u.D("DdAe")}, invokes: []*uFunc{iA, iB, iC}}, []string{"DAe", "DBe", "DCe", "DdAe"}},
-		{"groups", alpha{scopes: []int{0, 1}, ctors: []*uFunc{u.D("DG1e", cb), u.D("DG2", cb), u.D("DCge", cb), u.D("DCge")},
-			decos: []*uFunc{u.D("DdGe", cb)}, invokes: []*uFunc{iG, iC, iGs}}, []string{"DG1e", "DCge", "DdGe"}},
+		{"chain", alpha{scopes: []int{0, 1}, ctors: []*uFunc{u.D("DAe", cb), u.D("DAe"), u.D("DBe", cb, info), u.D("DBe"), u.D("DCe", cb, info, rev), u.D("DAe", cb, u.LocationOf("DB"))}, export: !q,
+			decos: []*uFunc{u.D("DdAe", cb, info), u.D("DdAe")}, invokes: []*uFunc{iA, iB, iC}}, []string{"DAe", "DBe", "DCe", "DdAe"}},
+		{"groups", alpha{scopes: []int{0, 1}, ctors: []*uFunc{u.D("DG1e", cb), u.D("DG2", cb, info), u.D("DCge", cb), u.D("DCge")},
+			decos: []*uFunc{u.D("DdGe", cb, info, rev)}, invokes: []*uFunc{iG, iC, iGs}}, []string{"DG1e", "DCge", "DdGe"}},
 		{"rejected-with-callbacks", alpha{scopes: []int{0, 1}, ctors: []*uFunc{u.D("DA", cb), u.D("DA2", cb), u.D("DB", cb), u.D("DC", cb)}, export: true,
 			decos: []*uFunc{u.D("DdA", cb), u.D("DdBe", cb)}, invokes: []*uFunc{iA, iB, iC}}, []string{"DdBe"}},
 	}
